@@ -6,6 +6,7 @@ flags, on the real checker.check_output, against (i) the independent reference r
 models.matchref.matches and (ii)-(v) four laws that need no reference.  An end-to-end spec prints the got
 from a one-statement doctest with the want underneath, under block directives selecting the flags.
 """
+import re
 import itertools
 
 from xmc.core import Spec
@@ -25,6 +26,8 @@ ALPH = {
     'E': ['a', ' ', '\n', '...'],
     # quotes together with the marker (as one token): NORMALIZE_REPR x ELLIPSIS
     'D': ['a', "'", '...', ' '],
+    # a single dot next to the marker, separated by whitespace that IGNORE_WHITESPACE deletes
+    'F': ['a', '.', '...', ' '],
 }
 BITS = list(itertools.product([False, True], repeat=5))
 IDX = {b: i for i, b in enumerate(BITS)}
@@ -113,7 +116,8 @@ def judge_pair(name, g, w, check_output):
                     b2 = list(bits)
                     b2[j] = LENIENT_ON[f]
                     if not res[IDX[tuple(b2)]]:
-                        atoms.append({'sig': 'law:monotone:' + f,
+                        fused = f == 'IGNORE_WHITESPACE' and re.findall(r'\.+', w) != re.findall(r'\.+', ''.join(w.split()))
+                        atoms.append({'sig': 'law:monotone:' + f + (':dot-fused-with-marker-by-whitespace-removal' if fused else ''),
                                       'msg': '%r vs %r matches under %r but not after making %s lenient' % (g, w, bits, f)})
     # (v) differing non-whitespace characters never match (no wildcard in play)
     if name == 'W':
@@ -299,6 +303,6 @@ class E2ERelSpec(Spec):
 def specs(tier):
     if tier == 'thorough':
         return [RelSpec('W<=4x4', 'W', 4, 4), RelSpec('Q<=4x4', 'Q', 4, 4), RelSpec('M<=4x4', 'M', 4, 4),
-                RelSpec('E<=4x6', 'E', 4, 6), RelSpec('D<=4x5', 'D', 4, 5), StateReuseSpec(4), E2ERelSpec()]
+                RelSpec('E<=4x6', 'E', 4, 6), RelSpec('D<=4x5', 'D', 4, 5), RelSpec('F<=4x5', 'F', 4, 5), StateReuseSpec(4), E2ERelSpec()]
     return [RelSpec('W<=4x3', 'W', 4, 3), RelSpec('W<=3x4', 'W', 3, 4, only_new=(3, 3)),
-            RelSpec('Q<=3x3', 'Q', 3, 3), RelSpec('Q<=2x4', 'Q', 2, 4, only_new=(2, 3)), RelSpec('M<=3x3', 'M', 3, 3), RelSpec('E<=3x5', 'E', 3, 5), RelSpec('D<=3x4', 'D', 3, 4), StateReuseSpec(3), E2ERelSpec()]
+            RelSpec('Q<=3x3', 'Q', 3, 3), RelSpec('Q<=2x4', 'Q', 2, 4, only_new=(2, 3)), RelSpec('M<=3x3', 'M', 3, 3), RelSpec('E<=3x5', 'E', 3, 5), RelSpec('D<=3x4', 'D', 3, 4), RelSpec('F<=3x4', 'F', 3, 4), StateReuseSpec(3), E2ERelSpec()]
